@@ -48,6 +48,19 @@ CLAIMED = {
          "identity (independence) is outside the value-level model and decided by the oracle; 6 open known findings "
          "(adoption by reference, re-pointed event type back references).",
     technique="Coq proof over value-level update model + model/implementation correspondence + history oracle", ref='5 C11'),
+ 'C12': dict(
+    text="Theorem over all ownership structures and all executions of writes / callbacks: when every write is followed by a "
+         "callback reaching the same ontology, any write to an element owned by an ontology strictly increases its counter "
+         "(hence is_modified_since(v) for every earlier v); the premise is discharged for the code as it is now by reflection "
+         "over the mutator table that is re-extracted from the source of all 10 ontology classes on every run (every method "
+         "that writes serialised content directly also calls the change callback, none assigns the counter; the one listed "
+         "exception is the known finding Ontology.clear). Behavioural tie: every public mutator (enumerated by introspection, "
+         "fail-closed curated arguments) is called on own and adopted elements, all histories a;b;a for every pair of mutators "
+         "of a class, random histories, and the EventValidator consumer; serialisation before/after vs. get_version().",
+    note=TB + "the static classification of T1 is an approximation (direct writes to private fields / container mutations); the "
+         "ownership premise (an ontology's serialisation depends only on elements whose owner chain ends in it) is violated by "
+         "adoption by reference - open known findings shared with C11; Ontology.clear is an open known finding pinned by a test.",
+    technique="Coq soundness theorem + reflection over a source-extracted mutator table + introspective mutator correspondence", ref='5 C12'),
  'C14': dict(
     text="Theorems over the dispatch model for all regex semantics, registration lists and documents (exact callback log, "
          "registry stability, counters, ontology-before-event), refutation theorems for the pre-fix behaviour; model tied to "
